@@ -162,6 +162,15 @@ func (c *Conn) Session() Session {
 	return c.session
 }
 
+// transfer returns the pipe of the chunked (BDAT) transfer in progress, nil
+// if there is none. Close, called by Server.Close from another goroutine,
+// ends the transfer, so the field is only accessed under the lock.
+func (c *Conn) transfer() *io.PipeWriter {
+	c.locker.Lock()
+	defer c.locker.Unlock()
+	return c.bdatPipe
+}
+
 func (c *Conn) setSession(session Session) {
 	c.locker.Lock()
 	defer c.locker.Unlock()
@@ -235,7 +244,7 @@ func (c *Conn) handleGreet(enhanced bool, arg string) {
 	c.helo = domain
 
 	// RFC 5321: "An EHLO command MAY be issued by a client later in the session"
-	if c.session != nil {
+	if c.Session() != nil {
 		// RFC 5321: "... the SMTP server MUST clear all buffers
 		// and reset the state exactly as if a RSET command has been issued."
 		c.reset()
@@ -311,7 +320,7 @@ func (c *Conn) handleMail(arg string) {
 		c.writeResponse(502, EnhancedCode{5, 5, 1}, "Please introduce yourself first.")
 		return
 	}
-	if c.bdatPipe != nil {
+	if c.transfer() != nil {
 		c.writeResponse(502, EnhancedCode{5, 5, 1}, "MAIL not allowed during message transfer")
 		return
 	}
@@ -667,7 +676,7 @@ func (c *Conn) handleRcpt(arg string) {
 		c.writeResponse(502, EnhancedCode{5, 5, 1}, "Missing MAIL FROM command.")
 		return
 	}
-	if c.bdatPipe != nil {
+	if c.transfer() != nil {
 		c.writeResponse(502, EnhancedCode{5, 5, 1}, "RCPT not allowed during message transfer")
 		return
 	}
@@ -898,7 +907,9 @@ func (c *Conn) handleStartTLS() {
 		return
 	}
 
+	c.locker.Lock()
 	c.conn = tlsConn
+	c.locker.Unlock()
 	c.init()
 
 	// Reset all state and close the previous Session.
@@ -925,7 +936,7 @@ func (c *Conn) handleData(arg string) {
 		c.writeResponse(501, EnhancedCode{5, 5, 4}, "DATA command should not have any arguments")
 		return
 	}
-	if c.bdatPipe != nil {
+	if c.transfer() != nil {
 		c.writeResponse(502, EnhancedCode{5, 5, 1}, "DATA not allowed during message transfer")
 		return
 	}
@@ -1013,9 +1024,10 @@ func (c *Conn) handleBdat(arg string) {
 		c.bdatStatus = c.createStatusCollector()
 	}
 
-	if c.bdatPipe == nil {
+	pipe := c.transfer()
+	if pipe == nil {
 		var r *io.PipeReader
-		r, c.bdatPipe = io.Pipe()
+		r, pipe = io.Pipe()
 
 		// The goroutine may still be running when the command loop has
 		// moved on (RSET, next transaction, QUIT), so it must not look at
@@ -1032,15 +1044,23 @@ func (c *Conn) handleBdat(arg string) {
 		// waits for the backend to read), so a transfer that is aborted
 		// before that never calls into a session that has been reset or
 		// logged out in the meantime.
+		c.locker.Lock()
+		if c.closed {
+			// Server.Close got in between.
+			c.locker.Unlock()
+			return
+		}
+		c.bdatPipe = pipe
 		c.bdatStart = func() {
 			go c.deliverBdat(r, session, status, recipients, dataResult)
 		}
+		c.locker.Unlock()
 	}
 
 	c.lineLimitReader.setLimit(0)
 
 	chunk := &io.LimitedReader{R: c.text.R, N: int64(size)}
-	_, err = io.Copy(bdatWriter{c, c.bdatPipe}, chunk)
+	_, err = io.Copy(bdatWriter{c, pipe}, chunk)
 	if err == nil && chunk.N > 0 {
 		// io.Copy does not report EOF: the connection ended inside the
 		// chunk, the message is incomplete.
@@ -1089,8 +1109,12 @@ func (c *Conn) handleBdat(arg string) {
 	if last {
 		c.lineLimitReader.setLimit(c.server.MaxLineLength)
 
-		c.startBdat()
-		c.bdatPipe.Close()
+		if !c.startBdat(pipe) {
+			// The connection has been closed, nobody is going to
+			// report a result.
+			return
+		}
+		pipe.Close()
 
 		err := <-c.dataResult
 
@@ -1161,12 +1185,19 @@ type bdatWriter struct {
 }
 
 func (w bdatWriter) Write(b []byte) (int, error) {
-	w.c.startBdat()
+	w.c.startBdat(w.w)
 	return w.w.Write(b)
 }
 
-func (c *Conn) startBdat() {
+// startBdat starts the delivery of the transfer that pipe belongs to, unless
+// it is running already. It reports false if the transfer has been aborted
+// in the meantime (by Close, called from another goroutine).
+func (c *Conn) startBdat(pipe *io.PipeWriter) bool {
 	c.locker.Lock()
+	if c.bdatPipe != pipe {
+		c.locker.Unlock()
+		return false
+	}
 	start := c.bdatStart
 	c.bdatStart = nil
 	c.locker.Unlock()
@@ -1174,6 +1205,7 @@ func (c *Conn) startBdat() {
 	if start != nil {
 		start()
 	}
+	return true
 }
 
 // discardChunk consumes the payload of a refused BDAT command.
